@@ -456,10 +456,10 @@ class Ctx:
                  f'vacuous={n_vac} violations={len(self.violations)} known={len(self.known)} mismatches={len(self.mismatches)} '
                  f'queries={self.solvers.queries} wall={time.time() - self.t0:.0f}s')
         n_unrep = sum(1 for o in posts if o.status == 'unreplayed')
+        if self.violations:
+            return 1          # a counterexample reproduced natively: reported even when other obligations of the run could not be decided
         if self.mismatches or n_vac:
             return 2
-        if self.violations:
-            return 1
         if n_unrep:
             self.log(f'UNCONFIRMED: {n_unrep} obligation(s) have a solver counterexample but no native replay recipe; not a pass (exit 2)')
             return 2
